@@ -575,15 +575,18 @@ CHECKS = {
         "rule": (
             "evaluations = signed protocol messages handed to CaManager::"
             "rfc6492 / RepositoryManager::rfc8181 and judged: the complete "
-            "combination table (1053 cases in both tiers: signing-key class "
+            "combination table (about 1130 cases in both tiers: signing-key class "
             "{current, other child's/publisher's, replaced, replaced-older, "
             "random, expired CMS under the current key, forged issuer "
             "(EE cert + CRL name the registered key, signed by an attacker)} "
             "x claimed sender {kid1, kid2, unregistered} x recipient {top, "
-            "top2; one repository} x request kind (10 provisioning kinds: "
+            "top2; one repository} x request kind (11 provisioning kinds: "
             "list, list with foreign recipient field, issue without limit / "
             "subset limit / limit partly outside / unknown class / for the "
-            "key certified to the other child, revoke other child's key, "
+            "key certified to the other child, the same while that child is "
+            "suspended at the parent (afterwards the owner is un-suspended "
+            "and must hold the same key with the same resources as before), "
+            "revoke other child's key, "
             "revoke own key, reissue; 7 publication kinds: list, publish "
             "inside base, update, publish in the other publisher's base, "
             "other host, withdraw other publisher's object, withdraw own) x "
@@ -741,7 +744,9 @@ CHECKS = {
             "globally unique prefixes on four CAs, deliberately rejected "
             "deltas, entitlement updates of c1 at p (two values), "
             "refresh-all, republish-all (forced or not), repository syncs, "
-            "key-roll init/activate on c2, and reads (CA info, routes, "
+            "key-roll init/activate on c2, the daily snapshot job coming "
+            "due (it writes snapshots through its own store instances while "
+            "the live ones take commands), and reads (CA info, routes, "
             "history, repository statistics, CA statistics) - on the same "
             "CA, different CAs, a parent and its child, and the publication "
             "server, while the scheduler executes the triggered tasks; disk "
@@ -752,7 +757,11 @@ CHECKS = {
             "idle, then: tree RP-valid, per CA the configured ROAs are "
             "exactly the initial ones plus every accepted addition, each "
             "once, configured-and-held ROAs are validated and nothing else, "
-            "the child's entitlement is one of the written values. "
+            "the child's entitlement is one of the written values; on the "
+            "disk back-end a second instance opened on the directory after "
+            "the round shows the same published files and configured ROAs "
+            "as the running one did (nothing acknowledged is lost over a "
+            "restart). "
             "evaluations = final-state comparisons per CA and round; "
             "distinct_nontrivial = distinct (back-end, set of operation "
             "kinds in the round) mixes; lock_order_pairs lists the "
@@ -926,8 +935,10 @@ CHECKS = {
         "quick": {"shards": 17, "budget_s": 45, "min_evaluations": 150},
         "thorough": {"shards": 17, "budget_s": 1500, "min_evaluations": 6000},
         "rule": (
-            "17 (operation kind x state class) pairs on TA -> p -> c: ROA "
-            "delta (steady / during roll), ASPA update, BGPsec add, child "
+            "18 (operation kind x state class) pairs on TA -> p -> c: ROA "
+            "delta (steady / during roll), a REFUSED ROA delta (its only "
+            "write is the audit record of the refusal), ASPA update, BGPsec "
+            "add, child "
             "entitlement shrink and grow (incl. the child's sync and the "
             "re-issue it triggers), child suspend, child remove, roll "
             "initiate (child and parent under the TA signer), roll activate, "
@@ -941,14 +952,21 @@ CHECKS = {
             "Each cut is realised (a) as a crash: restore the copy, restart "
             "the instance, and (b) as a single failing write on a running "
             "instance (followed by a restart when the scheduler would exit). "
+            "The operation is preceded by two accepted priming commands "
+            "(one per CA) with nothing read in between, so that on even "
+            "cuts the aggregate cache is one command behind the store when "
+            "the failing write happens (odd cuts: cache brought up to date "
+            "first). "
             "Oracles: every entity/status/publisher loads; no acknowledged "
             "version lost; after bounded pumping and explicit syncs the tree "
             "is RP-valid and configuration = published objects; after "
             "re-submitting the request and full catch-up the normalised "
             "observable state (configuration, children, parents, class "
             "shapes, payload sets, object counts per CA and kind, publisher "
-            "file counts) equals the fault-free run's; and the same again "
-            "after a restart. evaluations = oracle evaluations; "
+            "file counts) equals the fault-free run's; two further accepted "
+            "probe commands behave as in the fault-free run, and after a "
+            "restart everything acknowledged since the fault (re-submission "
+            "and probes) is still there. evaluations = oracle evaluations; "
             "distinct_nontrivial = distinct (pair, realisation, mutation "
             "label) cuts checked."
         ),
